@@ -39,7 +39,7 @@ def evaluate(src, pid, checks=None, tier='quick'):
     res['confirmed'] = res['demo_clean_rc'] == 0 and res['demo_changed_rc'] != 0 and res['tests_pass']
     # the Coq development is copied too, so that tables regenerated from the changed tree never disturb /verif/coq
     sh('mkdir -p %s && rsync -a --delete --exclude Cases/ %s/coq/ %s/' % (COQCOPY, VERIF, COQCOPY))
-    env = dict(os.environ, VERIF_REPO=WT, VERIF_COQ=COQCOPY)
+    env = dict(os.environ, VERIF_REPO=WT, VERIF_COQ=COQCOPY)        # VERIF_SEED, if set, is passed through
     res['checks'] = {}
     for c in (checks or [pid]):
         t0 = time.time()
